@@ -229,6 +229,10 @@ def build(cfg, src):
             emit(not from_server, [Q.short_packet(peer.keys["app"], pdcid, nxt(peer, "app"), pn_len("c_app" if from_server else "s_app"),
                                                   cat(ack(i), bytes(2)), key_phase=phase[not from_server])], None, None, "1-RTT ACK in the new key phase")
             pending_ack = False
+    if cfg.get("retransmit_server_hello"):
+        # the server repeats its ServerHello in a new Initial packet (next packet number) after everything else: a spurious retransmission
+        emit(True, [Q.long_packet(si, "initial", c_cid, s_cid, nxt(S, "initial"), pn_len("s_init"), cat(crypto(0, sh), bytes(2)))], None, None,
+             "Initial(SH) retransmitted")
     cids = [odcid, c_cid, s_cid] + ([new_s_cid] if new_s_cid is not None else []) + ([first_odcid] if cfg.get("retry") else [])
     meta = {"cr": cr, "suite": suite, "odcid": odcid, "c_cid": c_cid, "s_cid": s_cid, "secrets": sec, "C": C, "S": S, "cids": cids}
     return out, keylog, meta
